@@ -222,7 +222,8 @@ scpi_bool_t SCPI_Parse(scpi_t * context, char * data, int len) {
             SCPI_ErrorPush(context, SCPI_ERROR_INVALID_CHARACTER);
             result = FALSE;
         } else if (state->numberOfParameters < 0) {
-            /* the parameter list ends with a separator - do not run the command without its parameters */
+            /* the parameter list is not valid program data (it ends with a separator or in an
+             * incomplete block) - do not run the command without its parameters */
             SCPI_ErrorPush(context, SCPI_ERROR_INVALID_SEPARATOR);
             result = FALSE;
         } else if (state->programHeader.len > 0) {
@@ -1484,7 +1485,16 @@ int scpiParser_parseAllProgramData(lex_state_t * state, scpi_token_t * token, in
         } else {
             token->type = SCPI_TOKEN_UNKNOWN;
             token->len = 0;
-            /* nothing at all is an empty list, nothing after a comma is an invalid one */
+            /* nothing at all is an empty list; nothing after a comma is an invalid one, and so is
+             * an incomplete block that the lexer has swallowed up to the end of the input */
+            {
+                const char * p;
+                for (p = token->ptr; (paramCount == 0) && (p < state->pos); p++) {
+                    if ((*p != ' ') && (*p != '\t')) {
+                        paramCount = 1;
+                    }
+                }
+            }
             paramCount = (paramCount > 0) ? -1 : 0;
             break;
         }
